@@ -66,6 +66,11 @@ def _removeUltrashortIntervals(
                 newEntries.append(Interval(start, end, label))
             j += 1
 
+    # Special case: every interval was ultra-short; as for a tier without
+    # entries, one blank interval covers the tier
+    if len(newEntries) == 0 and len(tier["entries"]) > 0:
+        newEntries.append(Interval(minTimestamp, tier["entries"][-1][1], ""))
+
     # Next, shift near equivalent tiny boundaries
     # This will link intervals that were connected by an interval
     # that was shorter than minLength
